@@ -608,7 +608,9 @@ func (in *Inst) StateDigest() string {
 			fmt.Fprintf(h, "last=%s/%v|", last, err != nil)
 		}
 	}
-	fmt.Fprintf(h, "und=%v|pr=%v|ple=%d|", in.H.UndeterminedEvents, in.H.VPendingRounds(), in.H.PendingLoadedEvents)
+	// the insertion counter is part of the DAG's representation: it is stored with every event and
+	// the database lists events by it
+	fmt.Fprintf(h, "und=%v|pr=%v|ple=%d|topo=%d|", in.H.UndeterminedEvents, in.H.VPendingRounds(), in.H.PendingLoadedEvents, in.H.VTopologicalIndex())
 	if in.H.LastConsensusRound != nil {
 		fmt.Fprintf(h, "lcr=%d|", *in.H.LastConsensusRound)
 	}
